@@ -624,7 +624,7 @@ def run(ctx):
     drv = Driver("C12")
     try:
         check_tables(ctx, drv)
-        nf, na, nfit = ctx.n(300, 4000), ctx.n(700, 10000), ctx.n(120, 1500)
+        nf, na, nfit = ctx.n(300, 12000), ctx.n(700, 30000), ctx.n(120, 4000)
         for i in range(nf):
             eval_formula_case(ctx, drv, gen_formula_case(ctx.rng.fork(i)))
         for i in range(na):
